@@ -50,6 +50,9 @@ func (st *State) exec(th *Thread, fr *Frame, in ssa.Instruction) stepStatus {
 		case *ArrayV:
 			st.check(tt.Cmp(OpULt, idx, tt.Const(uint64(len(a.E)), 64)), "index out of range")
 			st.setLocal(fr, x, st.symRead(a, idx))
+		case StrV:
+			st.check(tt.Cmp(OpULt, idx, a.Len), "string index out of range")
+			st.setLocal(fr, x, st.symRead(st.strArr(a), tt.Bin(OpAdd, a.Off, idx)))
 		default:
 			panic(unsupported(fmt.Sprintf("Index on %T", xv)))
 		}
